@@ -332,6 +332,22 @@ func runC04(r *core.Run) {
 			s.Done()
 		}
 	}
+	// (1d) every byte value in front of, inside and behind the scheme
+	for _, k := range urlConstructs {
+		cfg := core.MustCfg(k.exts[len(k.exts)-1])
+		var docs [][]byte
+		for _, sc := range c04Schemes[:4] {
+			name := strings.TrimSuffix(sc[0], ":")
+			for b := 0; b < 256; b++ {
+				c := string([]byte{byte(b)})
+				for _, u := range []string{c + sc[0] + sc[1], name[:2] + c + name[2:] + ":" + sc[1], name + c + ":" + sc[1], sc[0] + c + sc[1], c + c + sc[0] + sc[1], "\\" + c + sc[0] + sc[1]} {
+					docs = append(docs, []byte(strings.ReplaceAll(k.tmpl, "§", u)))
+				}
+			}
+		}
+		docsSub(r, "byte-sweep-"+k.name, fmt.Sprintf("construct %q with every byte value 0..255 placed in front of (once, twice, behind a backslash), inside, at the end of and behind the scheme of 4 dangerous payloads, under %s; same oracle", k.tmpl, cfg),
+			cfg, docs, func(s *core.Sub, cv *core.Conv, w []byte) { c04Case(s, cv, w, k.name) })
+	}
 	// (2) free URL words in every construct
 	n := core.Pick(r, 3, 4)
 	for _, k := range urlConstructs {
